@@ -8,6 +8,7 @@ VERIF = os.path.dirname(os.path.dirname(os.path.abspath(__file__)))
 only = sys.argv[1:]
 cases = sorted(glob.glob(VERIF + "/selftest/*/meta.json") + glob.glob(VERIF + "/seeded/*/meta.json"))
 bad = 0
+HEAD = subprocess.run(["git", "-C", "/repo", "rev-parse", "HEAD"], capture_output=True, text=True).stdout.strip()
 # a frozen copy of the engine, so that rebuilding it while the corpus runs does not mix versions
 fd, BIN = tempfile.mkstemp(prefix="gvc-frozen-")
 os.close(fd)
@@ -30,7 +31,7 @@ for meta in cases:
     props = m["property"] if isinstance(m["property"], list) else [m["property"]]
     wt = tempfile.mkdtemp(prefix="gvc-selftest-")
     os.rmdir(wt)
-    subprocess.run(["git", "-C", "/repo", "worktree", "add", "-q", "--detach", wt, "HEAD"], check=True)
+    subprocess.run(["git", "-C", "/repo", "worktree", "add", "-q", "--detach", wt, HEAD], check=True)
     try:
         # uncommitted contract files of the working tree are part of the tree under test
         r = subprocess.run(["git", "-C", wt, "apply", os.path.join(d, "patch.diff")], capture_output=True, text=True)
